@@ -361,6 +361,9 @@ class SerialMpWriter(MpWriter):
         self.subargs = subargs if subargs else kwargs
         self.tasks = [SegmentWriter(ix, _lk=False, **self.subargs)
                       for _ in xrange(self.procs)]
+        # The sub-writers must see the fields this writer adds or removes
+        for writer in self.tasks:
+            writer.schema = self.schema
         self.pointer = 0
         self._grouping = 0
         self._added_sub = False
